@@ -10,7 +10,8 @@ RULE = ("seeded Arrays: rank 1-6, extents 1-7, every dtype and memory layout, ev
         "values compared BIT-EXACTLY with the Lean model (Float driver); non-trivial = some dims entry is a number or a pair, or a "
         "setter is used; labels are indexed after construction AND after every setter and the slice returned must carry the "
         "stack's current calibrations (also compared per label with the model's get_slice); over-long label lists repeating kept "
-        "labels; distinct by recipe hash")
+        "labels; the lists passed to the constructor (dim_units, dim_names, slicelabels) are compared before and after the call; "
+        "distinct by recipe hash")
 
 
 def cases(tier, seed):
